@@ -8,11 +8,12 @@ na_reasons = {}
 p = os.path.join(V, "not_applicable.json")
 if os.path.exists(p):
     na_reasons = json.load(open(p))
+ready = set(open(os.path.join(V, "ready.txt")).read().split())   # properties whose check the lead has accepted
 checks, na, engines = [], [], {}
 for pr in props:
     pid = pr["id"]
     f = os.path.join(V, "checks", pid.lower() + ".py")
-    if not os.path.exists(f) or pid in na_reasons:
+    if not os.path.exists(f) or pid in na_reasons or pid not in ready:
         na.append({"property_id": pid, "reason": na_reasons.get(pid, "check not built yet (work in progress, see DESIGN.md section 5)")})
         continue
     m = importlib.import_module(pid.lower())
